@@ -85,6 +85,9 @@ type W struct {
 	MW       int       `json:"middlewares"`
 	OnError  bool      `json:"on_error"`
 	Reqs     []Req     `json:"requests"`
+	// Annot: the handlers are methods of annotated controller classes (#[Controller], #[GetMapping]) in an
+	// application directory mounted with $server->boot(), the middlewares are #[Middleware] classes
+	Annot bool `json:"annotation_controllers,omitempty"`
 }
 
 // accessors: how a handler reads the request parameter that identifies its request
@@ -171,6 +174,7 @@ func gen(r *verifsim.Rng, tier string) (any, hx.Sched) {
 		w.Handlers = append(w.Handlers, hd)
 	}
 	w.MW = verifsim.Pick(r, []int{0, 0, 0, 1, 2})
+	w.Annot = !depthRun && r.Intn(5) == 0
 	w.OnError = r.Intn(3) == 0
 	if depthRun {
 		w.MW = 0
@@ -277,7 +281,8 @@ func shrink(x any) []any {
 	return out
 }
 
-func script(w *W) string {
+func script(w *W, appDir string) (string, map[string]string) {
+	files := map[string]string{}
 	var b strings.Builder
 	b.WriteString(`<?php
 use Net\Http\Server;
@@ -298,13 +303,26 @@ $server = new Server('127.0.0.1', 0);
 	if w.OnError {
 		b.WriteString("$server->onError(function ($request, $response, $error) {\n  __err($request->header(\"X-Id\"), $error);\n  $response->status(500)->write(\"E:\" . $request->header(\"X-T\") . \":\" . $error);\n});\n")
 	}
-	for i := 0; i < w.MW; i++ {
+	mwAttrs := ""
+	for i := 0; w.Annot && i < w.MW; i++ {
+		files[fmt.Sprintf("C11Mw%d.php", i)] = fmt.Sprintf("<?php\nclass C11Mw%d {\n  public function handle($request, $response, $next) {\n    $t = $request->header(\"X-T\");\n    $response->header(\"X-MW%d\", $t);\n    __gate();\n    $next($request, $response);\n    $request->attribute(\"after%d\", $t);\n  }\n}\n", i, i, i)
+		mwAttrs += fmt.Sprintf("#[Middleware(C11Mw%d::class)]\n", i)
+	}
+	for i := 0; !w.Annot && i < w.MW; i++ {
 		fmt.Fprintf(&b, "$server->middleware(function ($request, $response, $next) {\n  $t = $request->header(\"X-T\");\n  $response->header(\"X-MW%d\", $t);\n  __gate();\n  $next($request, $response);\n  $request->attribute(\"after%d\", $t);\n}, %d);\n", i, i, i)
 	}
+	main := &b
 	for h, hd := range w.Handlers {
-		fmt.Fprintf(&b, "$server->%s('/h%d/{id}', function ($req, $res) {\n  $out = \"\";\n  $id = $req->header(\"X-Id\");\n  $k = (int)$req->header(\"X-K\");\n", hd.Method, h)
+		b := main
+		if w.Annot {
+			b = &strings.Builder{}
+			fmt.Fprintf(b, "<?php\nuse Net\\Annotation\\Controller;\nuse Net\\Annotation\\GetMapping;\nuse Net\\Annotation\\PostMapping;\nuse Net\\Annotation\\Route;\nuse Net\\Annotation\\Middleware;\n%s#[Controller]\n#[Route(prefix: \"/a\")]\nclass C11H%d {\n#[%sMapping(path: \"/h%d/{id}\")]\npublic function handle($req, $res) {\n  $out = \"\";\n  $id = $req->header(\"X-Id\");\n  $k = (int)$req->header(\"X-K\");\n",
+				mwAttrs, h, map[string]string{"get": "Get", "post": "Post"}[hd.Method], h)
+		} else {
+			fmt.Fprintf(b, "$server->%s('/h%d/{id}', function ($req, $res) {\n  $out = \"\";\n  $id = $req->header(\"X-Id\");\n  $k = (int)$req->header(\"X-K\");\n", hd.Method, h)
+		}
 		for bi, bl := range hd.Blocks {
-			fmt.Fprintf(&b, "  __fail($id, %d);\n", bi)
+			fmt.Fprintf(b, "  __fail($id, %d);\n", bi)
 			lab := fmt.Sprintf("b%d.%s", bi, bl.Kind)
 			gate := ""
 			if bl.Gate {
@@ -313,58 +331,72 @@ $server = new Server('127.0.0.1', 0);
 			switch bl.Kind {
 			case "read2":
 				lab = fmt.Sprintf("b%d.%s", bi, strings.ReplaceAll(bl.Acc, "$", "")) // no "$": it would interpolate
-				fmt.Fprintf(&b, "  $a1 = %s;%s $a2 = %s;\n  $out .= \"%s=\" . $a1 . \"|\" . $a2 . \";\";\n", accessors[bl.Acc], gate, accessors[bl.Acc], lab)
+				fmt.Fprintf(b, "  $a1 = %s;%s $a2 = %s;\n  $out .= \"%s=\" . $a1 . \"|\" . $a2 . \";\";\n", accessors[bl.Acc], gate, accessors[bl.Acc], lab)
 			case "loop":
-				fmt.Fprintf(&b, "  $s = 0; for ($i = 0; $i < %d; $i++) { $s += $i * $k;%s }\n  $out .= \"%s=\" . $s . \";\";\n", bl.N, gate, lab)
+				fmt.Fprintf(b, "  $s = 0; for ($i = 0; $i < %d; $i++) { $s += $i * $k;%s }\n  $out .= \"%s=\" . $s . \";\";\n", bl.N, gate, lab)
 			case "arr":
-				fmt.Fprintf(&b, "  $arr = []; $x0 = $req->header(\"X-T\"); for ($i = 0; $i < %d; $i++) { $arr[$i] = $x0 . $i; }%s\n  $out .= \"%s=\" . implode(\",\", $arr) . \";\";\n", bl.N, gate, lab)
+				fmt.Fprintf(b, "  $arr = []; $x0 = $req->header(\"X-T\"); for ($i = 0; $i < %d; $i++) { $arr[$i] = $x0 . $i; }%s\n  $out .= \"%s=\" . implode(\",\", $arr) . \";\";\n", bl.N, gate, lab)
 			case "obj":
-				fmt.Fprintf(&b, "  $o = new Acc(); $o->add($k);%s $o->add(2);\n  $out .= \"%s=\" . $o->v . \";\";\n", gate, lab)
+				fmt.Fprintf(b, "  $o = new Acc(); $o->add($k);%s $o->add(2);\n  $out .= \"%s=\" . $o->v . \";\";\n", gate, lab)
 			case "depth":
-				fmt.Fprintf(&b, "  $o2 = new Acc();\n  $out .= \"%s=\" . $o2->down(%d) . \";\";\n", lab, bl.N)
+				fmt.Fprintf(b, "  $o2 = new Acc();\n  $out .= \"%s=\" . $o2->down(%d) . \";\";\n", lab, bl.N)
 			case "closure":
-				fmt.Fprintf(&b, "  $t0 = $req->header(\"X-T\"); $f = function($z) use ($t0, $k) { return $t0 . \":\" . ($z + $k); };%s\n  $out .= \"%s=\" . $f(10) . \";\";\n", gate, lab)
+				fmt.Fprintf(b, "  $t0 = $req->header(\"X-T\"); $f = function($z) use ($t0, $k) { return $t0 . \":\" . ($z + $k); };%s\n  $out .= \"%s=\" . $f(10) . \";\";\n", gate, lab)
 			case "helper":
-				fmt.Fprintf(&b, "  $t1 = $req->header(\"X-T\");%s\n  $out .= \"%s=\" . helper($t1, $k) . \";\";\n", gate, lab)
+				fmt.Fprintf(b, "  $t1 = $req->header(\"X-T\");%s\n  $out .= \"%s=\" . helper($t1, $k) . \";\";\n", gate, lab)
 			case "helperg":
-				fmt.Fprintf(&b, "  $t2 = $req->header(\"X-T\");\n  $out .= \"%s=\" . helperg($t2, $k) . \";\";\n", lab)
+				fmt.Fprintf(b, "  $t2 = $req->header(\"X-T\");\n  $out .= \"%s=\" . helperg($t2, $k) . \";\";\n", lab)
 			case "objg":
-				fmt.Fprintf(&b, "  $og = new Acc(); $tg = $req->header(\"X-T\"); $og->addg($k, $tg)->addg(1, $tg);\n  $out .= \"%s=\" . $og->v . \":\" . implode(\",\", $og->log) . \";\";\n", lab)
+				fmt.Fprintf(b, "  $og = new Acc(); $tg = $req->header(\"X-T\"); $og->addg($k, $tg)->addg(1, $tg);\n  $out .= \"%s=\" . $og->v . \":\" . implode(\",\", $og->log) . \";\";\n", lab)
 			case "closureg":
-				fmt.Fprintf(&b, "  $t3 = $req->header(\"X-T\"); $fg = function($z) use ($t3, $k) { $mine = $t3; __gate(); return $mine . \":\" . ($z + $k); };\n  $out .= \"%s=\" . $fg(10) . \";\";\n", lab)
+				fmt.Fprintf(b, "  $t3 = $req->header(\"X-T\"); $fg = function($z) use ($t3, $k) { $mine = $t3; __gate(); return $mine . \":\" . ($z + $k); };\n  $out .= \"%s=\" . $fg(10) . \";\";\n", lab)
 			case "trycatch":
-				fmt.Fprintf(&b, "  $t4 = $req->header(\"X-T\"); $caught = \"none\";\n  try {%s thrower($t4); } catch (Exception $e) {%s $caught = $e->getMessage(); } finally { $fin = $t4; }\n  $out .= \"%s=\" . $caught . \"/\" . $fin . \";\";\n", gate, gate, lab)
+				fmt.Fprintf(b, "  $t4 = $req->header(\"X-T\"); $caught = \"none\";\n  try {%s thrower($t4); } catch (Exception $e) {%s $caught = $e->getMessage(); } finally { $fin = $t4; }\n  $out .= \"%s=\" . $caught . \"/\" . $fin . \";\";\n", gate, gate, lab)
 			case "strbuild":
-				fmt.Fprintf(&b, "  $t5 = $req->header(\"X-T\"); $parts = [];\n  for ($i = 0; $i < 4; $i++) { $parts[] = $t5 . $i;%s }\n  $out .= \"%s=\" . implode(\"|\", $parts) . strlen(str_repeat($t5, 3)) . \";\";\n", gate, lab)
+				fmt.Fprintf(b, "  $t5 = $req->header(\"X-T\"); $parts = [];\n  for ($i = 0; $i < 4; $i++) { $parts[] = $t5 . $i;%s }\n  $out .= \"%s=\" . implode(\"|\", $parts) . strlen(str_repeat($t5, 3)) . \";\";\n", gate, lab)
 			case "sortcb":
-				fmt.Fprintf(&b, "  $t6 = $req->header(\"X-T\"); $sv = [3, 1, 2];\n  usort($sv, function($x, $y) use ($t6) { __gate(); return $x - $y; });\n  $out .= \"%s=\" . $t6 . implode(\"\", $sv) . \";\";\n", lab)
+				fmt.Fprintf(b, "  $t6 = $req->header(\"X-T\"); $sv = [3, 1, 2];\n  usort($sv, function($x, $y) use ($t6) { __gate(); return $x - $y; });\n  $out .= \"%s=\" . $t6 . implode(\"\", $sv) . \";\";\n", lab)
 			case "bigbody": // response bodies far above typical buffer sizes
-				fmt.Fprintf(&b, "  $t8 = $req->header(\"X-T\");\n  $out .= \"%s=\" . str_repeat($t8 . \".\", %d) . \";\";\n", lab, []int{9000, 14000, 40000}[bi%3])
+				fmt.Fprintf(b, "  $t8 = $req->header(\"X-T\");\n  $out .= \"%s=\" . str_repeat($t8 . \".\", %d) . \";\";\n", lab, []int{9000, 14000, 40000}[bi%3])
 			case "builtins": // commonly used builtins that may keep scratch state
-				fmt.Fprintf(&b, "  $t9 = $req->header(\"X-T\");%s\n  $out .= \"%s=\" . json_encode([\"t\" => $t9, \"k\" => $k]) . sprintf(\"%%s-%%05d\", $t9, $k) . str_replace(\"t\", \"T\", $t9) . strtoupper($t9) . implode(\"+\", explode(\"v\", $t9)) . str_pad($t9, 8, \"*\") . md5($t9) . substr($t9, 1) . ucfirst($t9) . count(str_split($t9)) . preg_replace(\"/v(\\\\d+)/\", \"V$1\", $t9) . \";\";\n", gate, lab)
+				fmt.Fprintf(b, "  $t9 = $req->header(\"X-T\");%s\n  $out .= \"%s=\" . json_encode([\"t\" => $t9, \"k\" => $k]) . sprintf(\"%%s-%%05d\", $t9, $k) . str_replace(\"t\", \"T\", $t9) . strtoupper($t9) . implode(\"+\", explode(\"v\", $t9)) . str_pad($t9, 8, \"*\") . md5($t9) . substr($t9, 1) . ucfirst($t9) . count(str_split($t9)) . preg_replace(\"/v(\\\\d+)/\", \"V$1\", $t9) . \";\";\n", gate, lab)
 			case "nested":
-				fmt.Fprintf(&b, "  $t7 = $req->header(\"X-T\");\n  $out .= \"%s=\" . outerfn($t7, %d) . \";\";\n", lab, 1+bi%3)
+				fmt.Fprintf(b, "  $t7 = $req->header(\"X-T\");\n  $out .= \"%s=\" . outerfn($t7, %d) . \";\";\n", lab, 1+bi%3)
 			case "attr":
-				fmt.Fprintf(&b, "  $req->attribute(\"who\", $req->header(\"X-T\"));%s\n  $out .= \"%s=\" . $req->attribute(\"who\") . \";\";\n", gate, lab)
+				fmt.Fprintf(b, "  $req->attribute(\"who\", $req->header(\"X-T\"));%s\n  $out .= \"%s=\" . $req->attribute(\"who\") . \";\";\n", gate, lab)
 			}
 		}
-		fmt.Fprintf(&b, "  __fail($id, %d);\n", len(hd.Blocks))
+		fmt.Fprintf(b, "  __fail($id, %d);\n", len(hd.Blocks))
 		if hd.Status {
 			b.WriteString("  $res->status(200 + $k);\n  $res->header(\"X-Echo\", $req->header(\"X-T\"));\n")
 		}
+		closing := "});\n"
+		if w.Annot {
+			closing = "}\n}\n"
+		}
 		if hd.File > 0 {
-			fmt.Fprintf(&b, "  $res->header(\"X-Out\", $out);\n  $res->file(%q, \"dl-\" . $req->header(\"X-T\") . \".bin\");\n});\n", filePath(hd.File))
+			fmt.Fprintf(b, "  $res->header(\"X-Out\", $out);\n  $res->file(%q, \"dl-\" . $req->header(\"X-T\") . \".bin\");\n%s", filePath(hd.File), closing)
 		} else {
-			b.WriteString("  $res->write($out);\n});\n")
+			b.WriteString("  $res->write($out);\n" + closing)
+		}
+		if w.Annot {
+			files[fmt.Sprintf("C11H%d.php", h)] = b.String()
 		}
 	}
-	return b.String()
+	if w.Annot {
+		files["App.php"] = "<?php\nuse Net\\Annotation\\Application;\n#[Application(name: 'c11', scan: __DIR__)]\nclass C11App {\n  public static function boot(): void { }\n}\n"
+		fmt.Fprintf(main, "require %q;\n$routes = $server->boot(C11App::class);\n__rec(\"routes\", json_encode($routes));\n", filepath.Join(appDir, "App.php"))
+	}
+	return main.String(), files
 }
 
 func request(w *W, i int) *http.Request {
 	q := w.Reqs[i]
 	hd := w.Handlers[q.H]
 	target := fmt.Sprintf("/h%d/id%s?x=%s&k=%d", q.H, q.X, q.X, q.K)
+	if w.Annot {
+		target = "/a" + target
+	}
 	var form url.Values
 	method := "GET"
 	if hd.Method == "post" {
@@ -473,11 +505,27 @@ func serveOne(w *W, mux *http.ServeMux, i int) obs {
 	return observe(c, p)
 }
 
+var appSeq int
+
 func exec(t *testing.T, x any, s hx.Sched) *hx.Outcome {
 	w := x.(*W)
 	o := &hx.Outcome{}
 	ensureFiles()
-	src := script(w)
+	appDir := ""
+	if w.Annot {
+		appSeq++
+		appDir = filepath.Join(filepath.Dir(os.Args[0]), "c11apps", fmt.Sprintf("%d-%d", os.Getpid(), appSeq))
+		defer os.RemoveAll(appDir)
+	}
+	src, files := script(w, appDir)
+	if len(files) > 0 {
+		os.MkdirAll(appDir, 0o755)
+		for name, text := range files {
+			if err := os.WriteFile(filepath.Join(appDir, name), []byte(text), 0o644); err != nil {
+				panic(err)
+			}
+		}
+	}
 	// solo oracle: a second fresh interpreter serves the same requests strictly one at a time
 	verifsim.SetMapConfig(&verifsim.MapConfig{Mode: verifsim.MapSorted})
 	soloErrs := make([]string, len(w.Reqs))
@@ -513,7 +561,7 @@ func exec(t *testing.T, x any, s hx.Sched) *hx.Outcome {
 				ok = false
 			}
 			if !ok {
-				o.Violate("C11/harness-setup", fmt.Sprintf("a generated handler does not run to completion when served alone: %s; script: %s", solo[i], src))
+				o.Violate("C11/harness-setup", fmt.Sprintf("a generated handler does not run to completion when served alone: %s; uncaught: %v; script: %s", solo[i], soloEnv.Throws, src))
 				return o
 			}
 		}
@@ -531,6 +579,9 @@ func exec(t *testing.T, x any, s hx.Sched) *hx.Outcome {
 	res := hx.RunBubble(t, s.Config(0), func(sim *verifsim.Sim) {
 		var mux *http.ServeMux
 		env, mux, setupErr = boot(w, src, concErrs)
+		if setupErr == "" && len(env.Throws) > 0 {
+			setupErr = "uncaught while the server script ran: " + strings.Join(env.Throws, "; ")
+		}
 		if setupErr != "" {
 			return
 		}
@@ -618,6 +669,9 @@ func exec(t *testing.T, x any, s hx.Sched) *hx.Outcome {
 		}
 	}
 	o.Probe("requests_compared", int64(inflight))
+	if w.Annot {
+		o.Probe("annotation_controller_runs", 1)
+	}
 	if res.Switches > int64(len(w.Reqs)) {
 		o.Probe("runs_with_requests_interleaved", 1)
 	}
@@ -689,6 +743,7 @@ var prop = &hx.Prop{
 	Components: map[string]string{
 		"interpreter (parser, nodes, contexts, superglobal nodes), std/net/http Server/Handler/middleware/onError/Request/Response": "real (instrumented copy of /repo)",
 		"Go net/http ServeMux":                            "real",
+		"annotation controllers (#[Controller]/#[GetMapping]/#[Middleware] classes in an application directory mounted with $server->boot())": "real: std/net/annotation, mount_routes.go, route_dispatch.go; the application's files are real files in the scratch tree",
 		"TCP listener, http.Server, connections":          "simulated: each client is a task calling ServeMux.ServeHTTP with an in-memory request and a SimConn",
 		"goroutine scheduling between in-flight requests": "simulated (seeded scheduler, statement-granular preemption, script-level gates)",
 		"oracle": "the same server script on a second fresh VM serving the same requests strictly one at a time (served twice; case discarded if the two differ)",
